@@ -930,13 +930,81 @@ fn long_histories(cfg: &Cfg, rep: &mut Report) {
     }
 }
 
+/// Several executors, one of which leaves (renounces its role, first or last in the list): the others are
+/// still configured, so the executor gate stays closed for everybody else - both in `execute_op` and in
+/// the controller's own authorization check.
+fn executor_leaves(cfg: &Cfg, rep: &mut Report) {
+    for (k, (nexec, leaver)) in [(2usize, 0usize), (2, 1), (3, 0), (3, 1), (3, 2)].iter().enumerate() {
+        let h = 960_000 + k as u64;
+        if h % cfg.nshards as u64 != cfg.shard as u64 || !cfg.runs(h) {
+            continue;
+        }
+        rep.begin_history(h);
+        let w = World::new(100, 16);
+        let e = &w.env;
+        let (p, s) = (w.account(), w.account());
+        let xs = w.accounts(*nexec);
+        let mut ex: SVec<Address> = SVec::new(e);
+        for x in &xs {
+            ex.push_back(x.clone());
+        }
+        let c = e.register(TimelockController, (5u32, SVec::from_array(e, [p.clone()]), ex, None::<Address>));
+        let target = e.register(CountTarget, ());
+        let zero = BytesN::from_array(e, &[0u8; 32]);
+        e.mock_all_auths();
+        // two ready operations: an external one and a self-administration one
+        invoke::<BytesN<32>>(e, &c, "schedule_op", args!(e, target, Symbol::new(e, "bump"), args!(e, 1u32), zero.clone(), zero.clone(), 5u32, p)).expect("schedule external");
+        invoke::<BytesN<32>>(e, &c, "schedule_op", args!(e, c, Symbol::new(e, "update_delay"), args!(e, 0u32), zero.clone(), zero.clone(), 5u32, p)).expect("schedule self-administration");
+        w.set_ledger(w.ledger() + 5);
+        e.mock_all_auths();
+        let r: Result<Val, Fail> = invoke(e, &c, "renounce_role", args!(e, Symbol::new(e, "executor"), xs[*leaver].clone()));
+        rep.op(format!("{nexec} executors, number {leaver} renounces -> {}", tag(&r)));
+        let left: u32 = invoke(e, &c, "get_role_member_count", args!(e, Symbol::new(e, "executor"))).must("get_role_member_count");
+        rep.check("ref", r.is_ok() && left as usize == nexec - 1, "C09/ref/executor-leaves/setup", || format!("renounce {r:?}, executors left {left}"));
+        // (1) execute_op with no executor named, signed by a stranger / by nobody
+        for signed in [true, false] {
+            if signed {
+                w.auth(&[(s.clone(), Inv::new(&c, "execute_op", args!(e, target, Symbol::new(e, "bump"), args!(e, 1u32), zero.clone(), zero.clone(), None::<Address>)))]);
+            } else {
+                w.no_auth();
+            }
+            let got: Result<Val, Fail> = invoke(e, &c, "execute_op", args!(e, target, Symbol::new(e, "bump"), args!(e, 1u32), zero.clone(), zero.clone(), None::<Address>));
+            rep.evaluations += 1;
+            rep.case(format!("executor-leaves/{nexec}-{leaver}/execute_op-without-executor/{}", tag(&got)));
+            rep.check("auth", got.is_err(), "C09/auth/execute_op/role-gate", || format!("{nexec} executors, number {leaver} left: execute_op naming no executor succeeded ({} still hold the role)", nexec - 1));
+        }
+        // (2) the former executor itself
+        w.auth(&[(xs[*leaver].clone(), Inv::new(&c, "execute_op", args!(e, target, Symbol::new(e, "bump"), args!(e, 1u32), zero.clone(), zero.clone(), Some(xs[*leaver].clone()))))]);
+        let got: Result<Val, Fail> = invoke(e, &c, "execute_op", args!(e, target, Symbol::new(e, "bump"), args!(e, 1u32), zero.clone(), zero.clone(), Some(xs[*leaver].clone())));
+        rep.check("auth", got.is_err(), "C09/auth/execute_op/role-gate", || "an account that renounced the executor role still executes".to_string());
+        // (3) the self-administration path with a descriptor naming no executor
+        let metas = [OperationMeta { predecessor: zero.clone(), salt: zero.clone(), executor: None }];
+        let a = args!(e, 0u32);
+        let entry = w.entry(&c, &Inv::new(&c, "update_delay", a.clone()), metas_val(e, &metas));
+        e.set_auths(&[entry]);
+        let got: Result<Val, Fail> = invoke(e, &c, "update_delay", a);
+        let md: u32 = invoke(e, &c, "get_min_delay", args!(e)).must("get_min_delay");
+        rep.evaluations += 2;
+        rep.case(format!("executor-leaves/{nexec}-{leaver}/self-administration-without-executor/{}", tag(&got)));
+        rep.check("bypass", got.is_err() && md == 5, "C09/bypass/update_delay/passed-without-executor/absent", || format!("{nexec} executors, number {leaver} left: update_delay with a descriptor naming no executor -> {got:?}, minimum delay now {md}"));
+        // (4) a remaining executor still can
+        let other = (0..*nexec).find(|i| i != leaver).unwrap();
+        w.auth(&[(xs[other].clone(), Inv::new(&c, "execute_op", args!(e, target, Symbol::new(e, "bump"), args!(e, 1u32), zero.clone(), zero.clone(), Some(xs[other].clone()))))]);
+        let got: Result<Val, Fail> = invoke(e, &c, "execute_op", args!(e, target, Symbol::new(e, "bump"), args!(e, 1u32), zero.clone(), zero.clone(), Some(xs[other].clone())));
+        rep.check("ref", got.is_ok(), "C09/ref/executor-leaves/remaining-executor-refused", || format!("remaining executor {other}: {got:?}"));
+        rep.count("executor_leaves_cases");
+        rep.end_history();
+    }
+}
+
 pub fn run(cfg: &Cfg, rep: &mut Report) {
-    rep.rule = "Exhaustive sweep (split over shards): executors configured? x 6 admin-only entry points x operation state {unset,waiting,ready,done,cancelled} x payload shape {proper,empty,two,wrong_salt,wrong_pred,no_entry,other_call} x executor variant {proper,absent,not_executor,executor_unsigned}, each an end-to-end call on a fresh controller (admin = itself) with a hand-built authorization entry whose signature is the descriptor list; plus role gates of schedule/cancel/execute (caller x signed), operations scheduled with a (pending / done) predecessor against descriptors naming the right, no or another predecessor, direct __check_auth probes with 1-3 contexts against 0..n+1 descriptors, and a foreign-contract call (token transfer from the controller); plus long-lived controllers: seeded histories of schedule (self-administration calls update_delay / grant_role / revoke_role / set_role_admin and an external bump, with predecessors, salts 1..3, delays around the current minimum) / administrative call with descriptor shape x executor variant / execute_op / execute_op on the controller itself / cancel / ledger +1..8, against a model of operation table, minimum delay and role table, every getter compared after every step. Distinct case = the tuple + outcome; none is trivial.".into();
+    rep.rule = "Exhaustive sweep (split over shards): executors configured? x 6 admin-only entry points x operation state {unset,waiting,ready,done,cancelled} x payload shape {proper,empty,two,wrong_salt,wrong_pred,no_entry,other_call} x executor variant {proper,absent,not_executor,executor_unsigned}, each an end-to-end call on a fresh controller (admin = itself) with a hand-built authorization entry whose signature is the descriptor list; plus role gates of schedule/cancel/execute (caller x signed), operations scheduled with a (pending / done) predecessor against descriptors naming the right, no or another predecessor, direct __check_auth probes with 1-3 contexts against 0..n+1 descriptors, and a foreign-contract call (token transfer from the controller); controllers with two or three executors one of whom renounces (first, middle or last in the list): the gate stays closed; plus long-lived controllers: seeded histories of schedule (self-administration calls update_delay / grant_role / revoke_role / set_role_admin and an external bump, with predecessors, salts 1..3, delays around the current minimum) / administrative call with descriptor shape x executor variant / execute_op / execute_op on the controller itself / cancel / ledger +1..8, against a model of operation table, minimum delay and role table, every getter compared after every step. Distinct case = the tuple + outcome; none is trivial.".into();
     systematic(cfg, rep);
     role_gates(cfg, rep);
     predecessor_cases(cfg, rep);
     multi_context(cfg, rep);
     foreign_context(cfg, rep);
+    executor_leaves(cfg, rep);
     long_histories(cfg, rep);
     rep.floor_on("long_admin_ok", 20, &["long_admin_ok"]);
     rep.floor_on("proper_path_ok", 1, &["proper_path_ok"]);
